@@ -13,8 +13,9 @@
 
    Checked here by TLC:
      RoundTrip   Parse(t, Layout(t, v)) = v          for every kept value of every type
-     PrefixFree  grammar-level prefix-freeness per type on the small values, and that the
-                 classification is the documented one
+     Truncation  which types have an optional tail (only the hellos: an extension block that may be
+                 omitted), that for every other type no strict prefix of a valid encoding parses, and
+                 that the hellos' tail really is optional
    Exported (wire_cases_<type>.ndjson): [t, v, bytes, pf] for the harness.               *)
 EXTENDS TLSWire, Json, SequencesExt
 
@@ -177,7 +178,7 @@ Variants(t) ==
     [] t = "serverKeyExchangeMsg" -> << V([key |-> F(1, 1)]), V([key |-> F(133, 2)]), VB([key |-> F(65536, 3)]) >>
     [] t = "certificateStatusMsg" -> << V([response |-> F(2, 1)]), V([response |-> F(500, 2)]), VB([response |-> F(65536, 3)]) >>
     [] t = "clientKeyExchangeMsg" -> << V([ciphertext |-> F(1, 1)]), V([ciphertext |-> F(66, 2)]), V([ciphertext |-> F(258, 3)]), VB([ciphertext |-> F(65536, 4)]) >>
-    [] t = "finishedMsg" -> << V([verifyData |-> F(12, 1)]), V([verifyData |-> F(32, 2)]), V([verifyData |-> F(48, 3)]), V([verifyData |-> F(1, 4)]) >>
+    [] t = "finishedMsg" -> << V([verifyData |-> F(12, 1)]), V([verifyData |-> F(32, 2)]), V([verifyData |-> F(36, 5)]), V([verifyData |-> F(48, 3)]), V([verifyData |-> F(1, 4)]) >>
     [] t = "certificateRequestMsg_12" ->
          << V([certificateTypes |-> <<1, 64>>]), V([certificateTypes |-> F(255, 1)]),
             V([supportedSignatureAlgorithms |-> Many16(12, 2)]), V([supportedSignatureAlgorithms |-> <<<<255, 255>>>>]),
@@ -226,9 +227,8 @@ Values(t) == {v \in Candidates(t) : Fits(t, v) /\ Valid(t, v)}
 
 ----------------------------------------------------------------------------
 (* checks on the specification itself *)
-(* documented classification: the optional extension block of the hellos and the
-   opaque bodies of ServerKeyExchange / ClientKeyExchange / Finished are "optional tails". *)
-NotPrefixFree == {"clientHelloMsg", "serverHelloMsg", "serverKeyExchangeMsg", "clientKeyExchangeMsg", "finishedMsg"}
+(* the types with an optional tail, as documented in TLSWire.tla *)
+OptionalTailTypes == {"clientHelloMsg", "serverHelloMsg"}
 FileOf(t) == OutPrefix \o t \o ".ndjson"
 BodyOf(t, lay) == IF Hdr(t) = -1 THEN lay ELSE DropB(lay, 4)
 
@@ -238,13 +238,18 @@ CheckType(t) ==
       small == {i \in 1..Len(vals) : Len(lay[i]) <= 164}
       \* RoundTrip: parsing the layout gives the value back
       rt == \A i \in 1..Len(vals) : Parse(t, lay[i]) = [ok |-> TRUE, v |-> vals[i]]
-      \* grammar-level prefix-freeness on the small values
-      pf == \A i \in small : LET b == BodyOf(t, lay[i]) IN \A k \in 0..(Len(b) - 1) : ~BodyParse(t, TakeB(b, k)).ok
-      cases == [i \in 1..Len(vals) |-> [t |-> t, v |-> vals[i], bytes |-> lay[i], pf |-> pf]]
+      \* message level: no strict prefix of a valid encoding is a valid encoding (Parse enforces the header length)
+      pfmsg == \A i \in small : \A k \in 0..(Len(lay[i]) - 1) : ~Parse(t, TakeB(lay[i], k)).ok
+      \* body level (grammar only): does some valid body have a strict prefix that is a valid body?
+      bodypf == \A i \in small : LET b == BodyOf(t, lay[i]) IN \A k \in 0..(Len(b) - 1) : ~BodyParse(t, TakeB(b, k)).ok
+      pf == ~HasOptionalTail(t)
+      cases == [i \in 1..Len(vals) |-> [t |-> t, v |-> vals[i], bytes |-> lay[i], pf |-> pf, opaque |-> OpaqueBody(t)]]
   IN
   /\ Assert(Fits(t, Base(t)) /\ Valid(t, Base(t)), <<"base value not valid", t>>)
   /\ Assert(rt, <<"Parse(Layout(v)) # v", t>>)
-  /\ Assert(pf = (t \notin NotPrefixFree), <<"prefix-freeness classification", t, pf>>)
+  /\ Assert(HasOptionalTail(t) = (t \in OptionalTailTypes), <<"optional-tail classification", t>>)
+  /\ Assert(pf => pfmsg, <<"a strict prefix of a valid encoding parses", t>>)
+  /\ Assert(HasOptionalTail(t) => ~bodypf, <<"the optional tail is not optional", t>>)
   /\ Assert(small # {}, <<"no small values", t>>)
   /\ ndJsonSerialize(FileOf(t), cases)
   /\ PrintT(ToJson([wire |-> t, candidates |-> Cardinality(Candidates(t)), values |-> Len(vals),
